@@ -110,8 +110,12 @@ def gen_cases(rng, tier, count=None):
     for i in range(8 if tier == "quick" else 200):
         # long horizons (budgets beyond the usual grid, counters crossing 2^11 .. 2^13) for the cheap algorithms
         n = int(rng.integers(2060, 2300)) if tier == "quick" else int(rng.choice([2100, 4200, 8300]))
-        c = gen.algo_case(rng, cheap[i % len(cheap)], tier, n=n, T=n, fams=fams, dim=int(rng.integers(1, 3)))
-        c["_cost"] = 20.0
+        c = gen.algo_case(rng, cheap[i % len(cheap)], tier, n=n, T=n, fams=fams, dim=int(rng.integers(1, 3)),
+                          narrow=n > 4000)
+        if n > 4000 and "c" in c["params"]:
+            # (a tiny exploration constant makes HCT split at every pull: 8300 levels, minutes per run)
+            c["params"]["c"] = max(c["params"]["c"], 0.05)
+        c["_cost"] = 20.0 * n / 2100
         cases.append(c)
     for i in range(30 if tier == "quick" else 600):
         # POO close to rhomax = 1 keeps doubling its number of learners: small budgets meet large N there
